@@ -411,8 +411,10 @@ class Sym:
             return ('cast', op, ty, self.operand(ops[0]))
         if op in ("bitcast", "addrspacecast"):
             a = self.operand(ops[0])
-            if a[0] == 'ptr':
+            if a[0] == 'ptr' or ty.endswith('*'):
                 return a
+            if a[0] == 'cast' and a[1] == 'bitcast' and term_type(a[3]) == ty:
+                return a[3]
             return ('cast', 'bitcast', ty, a)
         if op == "ptrtoint":
             return ('cast', 'ptrtoint', ty, self.operand(ops[0]))
@@ -442,6 +444,16 @@ class Sym:
             return ('ptr', ('alloca', inst["id"]), 0)
         if op == "getelementptr":
             p = self.operand(ops[0])
+            if p[0] == 'sel':
+                return self._map_sel(p, lambda q: self._gep(inst, q, ops))
+            return self._gep(inst, p, ops)
+        if op == "load":
+            p = self.operand(ops[0])
+            if p[0] == 'sel':
+                return self._map_sel(p, lambda q: self._load(inst, q, bc))
+            return self._load(inst, p, bc)
+        if op == "__gep_old__":
+            p = self.operand(ops[0])
             if p[0] != 'ptr':
                 self.unknown.append(inst)
                 return ('unk', inst["id"])
@@ -470,8 +482,8 @@ class Sym:
             return None
         if op == "extractelement":
             v, ix = self.operand(ops[0]), self.operand(ops[1])
-            if v[0] == 'vec' and ix[0] == 'ci':
-                return v[1 + ix[1]]
+            if ix[0] == 'ci':
+                return self._map_sel(v, lambda x: x[1 + ix[1]] if x[0] == 'vec' else ('extractelement', x, ix))
             return ('extractelement', v, ix)
         if op == "insertelement":
             v, e, ix = (self.operand(o) for o in ops)
@@ -519,6 +531,33 @@ class Sym:
         return ('unk', inst["id"])
 
     # ---- memory ----
+    def _map_sel(self, p, f):
+        if p[0] == 'sel':
+            return ('sel', p[1], self._map_sel(p[2], f), self._map_sel(p[3], f))
+        return f(p)
+
+    def _gep(self, inst, p, ops):
+        if p[0] != 'ptr':
+            self.unknown.append(inst)
+            return ('unk', inst["id"])
+        if "off" in inst:
+            return ('ptr', p[1], self._addoff(p[2], inst["off"]))
+        const = 0
+        terms = []
+        for sc, o in zip(inst["scales"], ops[1:]):
+            if sc.get("struct"):
+                const += sc.get("off", 0)
+            else:
+                ix = self.operand(o)
+                if ix[0] == 'ci':
+                    v = ix[1]
+                    if v >= 1 << (ix[2] - 1):
+                        v -= 1 << ix[2]
+                    const += v * sc["scale"]
+                else:
+                    terms.append((sc["scale"], ix))
+        return ('ptr', p[1], ('dyn', self._addoff(p[2], const), tuple(terms)))
+
     def _load(self, inst, p, bc):
         ty = inst["ty"]
         size = inst["size"]
@@ -533,16 +572,33 @@ class Sym:
                     n = int(ty[1:].split(" x ")[0])
                     es = size // n
                     elems = []
+                    ety = ty.split(" x ")[1].rstrip(">")
                     for i in range(n):
                         e = m.get(off + i * es)
-                        elems.append(e[1] if e and e[0] == es else ('undef',))
+                        if e and e[0] == es:
+                            elems.append(e[1] if term_type(e[1]) in (None, ety) else retype(e[1], ety))
+                            continue
+                        r = None
+                        for o, (s0, v0) in m.items():
+                            if isinstance(o, int) and o <= off + i * es and off + (i + 1) * es <= o + s0 and v0 is not None:
+                                r = subword(v0, s0, off + i * es - o, es, ety)
+                                break
+                        elems.append(r if r is not None else ('ldlocal', base[1], off + i * es, es, ()))
                     return ('vec',) + tuple(elems)
                 e = m.get(off)
                 if e and e[0] == size:
                     v = e[1]
                     return v
-                if e is None and not any(o < off + size and o + s > off for o, (s, _) in m.items()):
+                if e is None and not any(isinstance(o, int) and o < off + size and o + s > off for o, (s, _) in m.items()):
+                    if any(not isinstance(o, int) for o in m):
+                        return ('ldlocal', base[1], off, size, ())
                     return ('undef',)   # read of never-written local memory
+                # a wider (or differently typed) store covers the bytes: extract them bitwise
+                for o, (s0, v0) in m.items():
+                    if isinstance(o, int) and o <= off and off + size <= o + s0 and v0 is not None:
+                        r = subword(v0, s0, off - o, size, ty)
+                        if r is not None:
+                            return r
                 # partial overlap: give up on this value only
                 return ('ldlocal', base[1], off, size, tuple(sorted((o, s) for o, (s, _) in m.items())))
             return ('lddyn', base[1], off, tuple(sorted((o, v[1]) for o, v in m.items())))
@@ -689,6 +745,65 @@ class Sym:
 # --------------------------------------------------------------------------
 # term utilities
 # --------------------------------------------------------------------------
+def term_type(t):
+    h = t[0]
+    if h in ('op', 'cast', 'fn'):
+        return t[2]
+    if h == 'ci':
+        return 'i%d' % t[2]
+    if h == 'cf':
+        return t[2]
+    if h == 'ld':
+        return t[4]
+    return None
+
+
+def type_bits(ty):
+    if ty is None:
+        return None
+    if ty.startswith('i') and ty[1:].isdigit():
+        return int(ty[1:])
+    return {'float': 32, 'double': 64, 'half': 16}.get(ty)
+
+
+def retype(v, ty):
+    """Reinterpret the bits of v as type ty (same size)."""
+    vt = term_type(v)
+    if vt == ty:
+        return v
+    if v[0] == 'cast' and v[1] == 'bitcast' and term_type(v[3]) in (ty, None):
+        return v[3]
+    return ('cast', 'bitcast', ty, v)
+
+
+def subword(v0, s0, delta, size, ty):
+    """Bytes [delta, delta+size) of the s0-byte value v0, as a value of type ty;
+    resolved through bit provenance when v0 packs several scalars."""
+    if v0[0] == 'vec' or v0[0] in ('agg', 'zero', 'blk', 'ldblk'):
+        return None
+    w0 = s0 * 8
+    iv = v0
+    vt = term_type(v0)
+    if vt is not None and not vt.startswith('i'):
+        iv = ('cast', 'bitcast', 'i%d' % w0, v0)
+    elif vt is None:
+        if v0[0] == 'arg' and size == s0:
+            return v0
+        return None
+    bits = to_bits(iv, w0)[delta * 8:(delta + size) * 8]
+    w = size * 8
+    if all(isinstance(b, tuple) and b[0] == 'in' for b in bits):
+        a = bits[0][1]
+        if all(b[1] == a and b[2] == i for i, b in enumerate(bits)):
+            aw = type_bits(term_type(a)) or (w if a[0] in ('arg', 'ld') else None)
+            if aw == w:
+                return retype(a, ty) if term_type(a) else a
+    if all(b == 0 for b in bits):
+        return ('cf', 0.0, ty) if not ty.startswith('i') else ('ci', 0, w)
+    r = ('cast', 'trunc', 'i%d' % w, ('op', 'lshr', 'i%d' % w0, iv, ('ci', delta * 8, w0))) if (delta or size != s0) else iv
+    return retype(r, ty)
+
+
 def walk(t, f, seen=None):
     if seen is None:
         seen = set()
@@ -1105,6 +1220,12 @@ def _to_bits(t, width, aw, memo):
     if h == 'arg' or h == 'ld':
         w = aw.get(t, width)
         return [('in', t, i) for i in range(min(w, width))] + [0] * max(0, width - w) if w < width else [('in', t, i) for i in range(width)]
+    if t in aw:
+        w = aw[t]
+        return ([('in', t, i) for i in range(w)] + [0] * width)[:width]
+    if h == 'cast' and t[1] == 'bitcast':
+        w = type_bits(t[2]) or width
+        return ([('in', t[3] if term_type(t[3]) else t, i) for i in range(w)] + [0] * width)[:width]
     if h == 'cast':
         k = t[1]
         inner = t[3]
